@@ -180,6 +180,15 @@ class CallGraph(object):
         for n in nodes:
             if id(n) in nested and not isinstance(n, ast.FunctionDef):
                 continue
+            # reading a property runs its getter:  self.parser  with  @property def parser(self)
+            if isinstance(n, ast.Attribute) and isinstance(n.value, ast.Name) and n.value.id == selfname and owner is not None \
+                    and isinstance(n.ctx, ast.Load):
+                lp = model.lookup_property(owner[0], owner[1], n.attr)
+                if lp:
+                    pk = (lp[0].name, lp[0].qualname_of(lp[2]))
+                    if pk in self.funcs:
+                        self.edges[k].add(pk)
+                        self.sites[(k, id(n))] = set([pk])
             if not isinstance(n, ast.Call):
                 continue
             callees = self._resolve_call(m, f, n, owner, selfname)
